@@ -42,7 +42,7 @@ def gname(rng, base=None):
     r = rng.random()
     if base is not None and r < 0.55:
         # derive from base: case variant, child, parent, sibling, tweak one octet
-        k = rng.randrange(7)
+        k = rng.randrange(8)
         b = list(base)
         absolute = bool(b) and b[-1] == b""
         body = b[:-1] if absolute else b
@@ -63,6 +63,21 @@ def gname(rng, base=None):
         elif k == 5 and body:
             i = rng.randrange(len(body))
             body[i] = body[i] + bytes([rng.choice(ALPHA)]) if len(body[i]) < 63 else body[i][:-1] or b"a"
+        elif k == 7 and len(body) >= 2:
+            # the same octets with the label boundary somewhere else: "a.b" "c"  versus  "a" "b.c" (a dot inside a label is an
+            # ordinary octet; the two are different names with the same number of labels)
+            i = rng.randrange(len(body) - 1)
+            l1, l2 = body[i], body[i + 1]
+            if b"." in l1 and len(l2) + 1 + len(l1.rsplit(b".", 1)[1]) <= 63:
+                a, t2 = l1.rsplit(b".", 1)
+                if a:
+                    body[i], body[i + 1] = a, t2 + b"." + l2
+            elif b"." in l2 and len(l1) + 1 + len(l2.split(b".", 1)[0]) <= 63:
+                h, t2 = l2.split(b".", 1)
+                if t2:
+                    body[i], body[i + 1] = l1 + b"." + h, t2
+            elif len(l1) + 2 <= 63:
+                body[i] = l1 + b"." + bytes([rng.choice(b"abAB")])  # no dot yet: make a dotted label for later derivations to shift
         elif k == 6 and body:
             # differ by bit 0x20 in an octet that is NOT an ASCII letter (0xC0-0xFE are letters in Latin-1, "[" / "{" neighbours
             # in ASCII): such names are different names and order by raw octet value
